@@ -51,6 +51,7 @@ struct vf_ec_ghost {
 	struct { unsigned n, n3; unsigned long d, bn, m; } mult_digit;
 	struct { unsigned n; unsigned long a, b; int r, r0, r1; } cmp;
 	struct { int st; unsigned n; int fn; unsigned long a, b, c; } pop;
+	struct { unsigned n; _Bool z0, z1; } msub;
 	struct { unsigned n; unsigned long buf[VF_IO_LOG]; size_t size[VF_IO_LOG]; unsigned long bn[VF_IO_LOG]; } imp, exp;
 } vf_g;
 
@@ -150,6 +151,10 @@ enum { VF_POP_none, VF_POP_import_affine, VF_POP_norm, VF_POP_export_affine, VF_
 #define vf_cmp_r		vf_g.cmp.r
 #define vf_cmp_r0		vf_g.cmp.r0	/* result of the first / second bn_cmp */
 #define vf_cmp_r1		vf_g.cmp.r1
+/* bn_mod_sub: was the result of the first / second call zero (digits == 0)? */
+#define vf_n_msub		vf_g.msub.n
+#define vf_msub_z0		vf_g.msub.z0
+#define vf_msub_z1		vf_g.msub.z1
 #define vf_n_mult_digit		vf_g.mult_digit.n
 #define vf_n_mult_digit3	vf_g.mult_digit.n3	/* calls with digit 3 (the 3 X^2 of the doubling formulas) */
 #define vf_mult_digit_d		vf_g.mult_digit.d
